@@ -230,6 +230,10 @@ impl<F: Read + Seek> Seek for Stream<F> {
 
 impl<F: Read + Write + Seek> Write for Stream<F> {
     fn write(&mut self, buf: &[u8]) -> io::Result<usize> {
+        // A damaged file can claim a stream length close to u64::MAX.
+        if self.current_position().checked_add(buf.len() as u64).is_none() {
+            invalid_input!("Cannot write past the maximum stream length");
+        }
         let num_bytes_written = match self.buffer.write_bytes(buf) {
             Some(count) => count,
             None => {
@@ -354,9 +358,14 @@ fn write_data_to_stream<F: Read + Write + Seek>(
         old_stream_len.max(buf_offset_from_start + buf.len() as u64);
     let new_start_sector = if old_start_sector == consts::END_OF_CHAIN {
         // Case 1: The stream has no existing chain.  The stream is empty, and
-        // we are writing at the start.
-        debug_assert_eq!(old_stream_len, 0);
-        debug_assert_eq!(buf_offset_from_start, 0);
+        // we are writing at the start.  (In a damaged file, an entry without
+        // a chain can still claim a nonzero length.)
+        if old_stream_len != 0 || buf_offset_from_start != 0 {
+            invalid_data!(
+                "Stream has length {} but no sector chain",
+                old_stream_len
+            );
+        }
         if new_stream_len < consts::MINI_STREAM_CUTOFF as u64 {
             // Case 1a: The data we're writing is small enough that it
             // should be placed into a new mini chain.
@@ -433,8 +442,14 @@ fn resize_stream<F: Read + Write + Seek>(
     };
     let new_start_sector = if old_start_sector == consts::END_OF_CHAIN {
         // Case 1: The stream has no existing chain.  We will allocate a new
-        // chain that is all zeroes.
-        debug_assert_eq!(old_stream_len, 0);
+        // chain that is all zeroes.  (In a damaged file, an entry without a
+        // chain can still claim a nonzero length.)
+        if old_stream_len != 0 {
+            invalid_data!(
+                "Stream has length {} but no sector chain",
+                old_stream_len
+            );
+        }
         if new_stream_len < consts::MINI_STREAM_CUTOFF as u64 {
             // Case 1a: The new length is small enough that it should be placed
             // into a new mini chain.
